@@ -34,6 +34,7 @@ CLS2OP = {"OrLocStackChecker": "Or", "AndLocStackChecker": "And", "XorLocStackCh
 def run(repo: Repo, tier: str, res: CheckResult, seed: int = 0) -> None:
     m = repo.mod(LSF)
     fast_path_classes_final(repo, m, res)
+    router_table_stores(repo, m, res)
     facade_bound_wraps(repo, res)
     operator_table(m, res)
     reducers(m, res)
@@ -726,6 +727,79 @@ def fast_path_classes_final(repo: Repo, m: ModuleInfo, res: CheckResult) -> None
                                     f"{r.cls.name} part (a parametrised type predicate matches every type of the same origin) while "
                                     "create_loc_stack_checker(...).check_loc_stack stays exact", r.cls.node.lineno))
     res.count("ROUTER.fast-path-classes", n, 1)
+
+
+def router_table_stores(repo: Repo, m: ModuleInfo, res: CheckResult) -> None:
+    """The router replaces a run of (checker, handler) pairs by one origin -> handler table. An entry of that table stands for the
+    WHOLE checker of the pair it replaces, so it may be made only for a checker that IS an origin comparison: the key is the
+    `.origin` of the very object an isinstance test against a fast-path class has accepted. Keys collected from the parts of a
+    compound checker (the alternatives of an `|`, the members of `P[A, 'name']`) leave out every part that is not an origin
+    comparison: inside a retort the predicate is reduced to its class alternatives while check_loc_stack stays exact."""
+    rm = repo.mod("retort/routers")
+    tables = set()
+    for a in ast.walk(rm.tree):
+        if isinstance(a, ast.AnnAssign) and "OriginToHandler" in norm(a.annotation) and isinstance(a.target, ast.Attribute):
+            tables.add(norm(a.target))
+    if not tables:
+        raise AnalysisError("retort/routers.py: no attribute annotated OriginToHandler (the grouped origin table)")
+    n = 0
+    for st in ast.walk(rm.tree):
+        if not (isinstance(st, ast.Assign) and len(st.targets) == 1 and isinstance(st.targets[0], ast.Subscript)
+                and norm(st.targets[0].value) in tables):
+            continue
+        n += 1
+        qual = rm.qualname(st)
+        fn = rm.enclosing_function(st)
+        key = st.targets[0].slice
+        res.evaluated(f"router-table-store:{qual}:{norm(key)}", True)
+        # the expression the key stands for
+        src = key
+        loop_over = None
+        if isinstance(key, ast.Name):
+            assigns = [a for a in ast.walk(fn) if isinstance(a, ast.Assign) and len(a.targets) == 1 and norm(a.targets[0]) == key.id]
+            loops = [f for f in ast.walk(fn) if isinstance(f, (ast.For, ast.comprehension)) and key.id in {x.id for x in ast.walk(f.target) if isinstance(x, ast.Name)}]
+            if loops:
+                loop_over = loops[0].iter
+            elif len(assigns) == 1:
+                src = assigns[0].value
+            else:
+                raise AnalysisError(f"{qual}: cannot tell where the table key `{key.id}` comes from")
+        if loop_over is not None:
+            it = loop_over
+            if isinstance(it, ast.Name):
+                ia = [a for a in ast.walk(fn) if isinstance(a, ast.Assign) and len(a.targets) == 1 and norm(a.targets[0]) == it.id]
+                if len(ia) == 1:
+                    it = ia[0].value
+            res.add(Finding("C10", "ROUTER.table-entry-not-the-whole-checker", rm.rel, qual, norm(st)[:100],
+                            f"`{norm(st)}` runs once per element of `{norm(it)[:80]}`: the table entries are collected from the parts of a "
+                            "checker instead of standing for one origin comparison; every part that is not an origin comparison (an "
+                            "abstract class, a field name, a pattern chain inside `P[A] | ...` / `P[A, 'name']`) is dropped from the "
+                            "predicate when a retort routes the request, while create_loc_stack_checker(...).check_loc_stack stays exact",
+                            st.lineno))
+            continue
+        if not (isinstance(src, ast.Attribute) and src.attr == "origin"):
+            raise AnalysisError(f"{qual}: the table key `{norm(src)[:60]}` is not the origin of a checker")
+        tested = norm(src.value)
+        # dominating isinstance(<tested>, <fast-path class>) on the true branch
+        ok = False
+        node: Optional[ast.AST] = st
+        while node is not None and node is not fn:
+            par = rm.parent(node)
+            if isinstance(par, ast.If) and node in par.body:
+                for c in ast.walk(par.test):
+                    if isinstance(c, ast.Call) and norm(c.func) == "isinstance" and len(c.args) == 2 and norm(c.args[0]) == tested:
+                        neg = isinstance(rm.parent(c), ast.UnaryOp)
+                        in_or = any(isinstance(b, ast.BoolOp) and isinstance(b.op, ast.Or) for b in ast.walk(par.test))
+                        r = repo.resolve_expr_static(rm, c.args[1]) if isinstance(c.args[1], (ast.Name, ast.Attribute)) else None
+                        if not neg and not in_or and r is not None and r.kind == "class" and r.cls is not None and r.cls.module is m:
+                            ok = True
+            node = par
+        if not ok:
+            res.add(Finding("C10", "ROUTER.table-entry-not-the-whole-checker", rm.rel, qual, norm(st)[:100],
+                            f"`{norm(st)}`: the key is `{norm(src)}` but no isinstance test of `{tested}` against an origin checker class "
+                            "guards the store: the pair is replaced by a table entry although its checker may demand more than the origin",
+                            st.lineno))
+    res.count("ROUTER.table-stores", n, 1)
 
 
 def facade_bound_wraps(repo: Repo, res: CheckResult) -> None:
